@@ -810,6 +810,20 @@ static err_t call_ecp_tors(fc_ctx* c)
 		qrTo((octet*)c->a[0], ecX(pt), f, st), qrTo((octet*)c->a[0] + no, ecY(pt, n), f, st);
 	if (fl[3])
 		qrTo((octet*)c->a[4], ecX(pt2), f, st), qrTo((octet*)c->a[4] + no, ecY(pt2, n), f, st);
+	/* general-a tripling (ecpTplJ; the standard curves with a = -3 use ecpTplJA3): 3 T = O for the
+	   point of order 3, 3 T = T for the point of order 2 */
+	{
+		word* P3 = (word*)sk_alloc(W(ec->d * n));
+		word* T3 = (word*)sk_alloc(W(ec->d * n));
+		word* af = (word*)sk_alloc(W(2 * n));
+		int aff;
+		st = stk(ec->deep);
+		ecFromA(P3, tors, ec, st);
+		ec->tpl(T3, P3, ec, st);
+		aff = ecToA(af, T3, ec, st);
+		if (c->n[6] == 3 ? aff : (!aff || !wwEq(af, tors, 2 * n)))
+			return ERR_BAD_LOGIC;
+	}
 	/* k P has order dividing that of P: the multiple is O or again of that order */
 	if (fl[2])
 	{
